@@ -63,7 +63,7 @@ func caseGen() *rapid.Generator[Case] {
 					op.Key = rapid.IntRange(0, len(Keys)-1).Draw(t, "key2")
 				}
 				op.Reps = rapid.IntRange(1, 5).Draw(t, "reps")
-				op.V = rapid.SampledFrom([]int{0, 0, 0, 1, 1, 2, 3, 4}).Draw(t, "vform")
+				op.V = rapid.SampledFrom([]int{0, 0, 0, 1, 1, 2, 3, 4, 5}).Draw(t, "vform")
 				op.N = rapid.IntRange(0, 2).Draw(t, "itemchange")
 			case "addcopy":
 				op.Owner = Owner{Kind: "copy", I: rapid.IntRange(0, 5).Draw(t, "copy")}
